@@ -198,16 +198,23 @@ class DAGRunConcurrentManager(DAGRunManagerLike):
                     continue
 
                 if self._is_switch(pred_node_id):
-                    kwargs[kwarg_name] = self._node_storage.get_node_result(
+                    value = self._node_storage.get_node_result(
                         self._node_storage.get_switch_result(pred_node_id).node_id,
                         with_hidden=True,
                     )
 
                 else:
-                    kwargs[kwarg_name] = self._node_storage.get_node_result(
+                    value = self._node_storage.get_node_result(
                         pred_node_id,
                         with_hidden=True,
                     )
+
+                if isinstance(value, BaseException):
+                    # The dependency was executed inside a OneOf subgraph, where an error is kept as the node's
+                    # result. The consumer fails with that error instead of being called with the exception object.
+                    raise value
+
+                kwargs[kwarg_name] = value
 
         else:
             kwargs = dict(self.ctx.input_kwargs)
